@@ -202,13 +202,55 @@ Definition sync_exchange (a b : state) : state * state :=
   let pull := values_of (st_store b) (push_ids (st_index b) (st_index a)) in
   (fst (set_raw FNone a pull), fst (set_raw FNone b push)).
 
+(* ---- the exchange as it really runs over the StoreElements stream --------------------------------- *)
+
+(* responder, HandleStoreElementsRequest: sortIdsNewestFirst orders the requested ids by head, descending (ids the
+   diff does not know sort last), ties by id.  The id order of the code is the string order of the slot names, which
+   the model does not know (slots are numbers handed out by the harness): ties are broken by slot number here.  Every
+   theorem about the streamed exchange is proved for ANY order of the stream, so nothing depends on this choice. *)
+Definition newer_first (idx : smap N) (x y : N) : bool :=
+  match sm_get idx x, sm_get idx y with
+  | Some hx, Some hy => if (hx =? hy)%N then (x <=? y)%N else (hy <? hx)%N
+  | Some _, None => true
+  | None, Some _ => false
+  | None, None => (x <=? y)%N
+  end.
+
+Fixpoint insert_newest (idx : smap N) (x : N) (l : list N) : list N :=
+  match l with
+  | [] => [x]
+  | y :: r => if newer_first idx x y then x :: l else y :: insert_newest idx x r
+  end.
+
+Definition newest_first (idx : smap N) (ids : list N) : list N :=
+  fold_right (insert_newest idx) [] ids.
+
+(* initiator, syncWithPeer: batch = append(batch, msg); if len(batch) >= applyBatchSize { SetRaw(batch...); batch =
+   batch[:0] }; after the terminator: SetRaw(batch...) (also when the batch is empty).  [n] = applyBatchSize. *)
+Fixpoint stream_apply (n : nat) (st : state) (batch : list value) (msgs : list value) : state :=
+  match msgs with
+  | [] => fst (set_raw FNone st batch)
+  | m :: r =>
+      let batch' := batch ++ [m] in
+      if (n <=? length batch')%nat then stream_apply n (fst (set_raw FNone st batch')) [] r
+      else stream_apply n st batch' r
+  end.
+
+(* initiator [a], responder [b]: same id sets as [sync_exchange]; the responder streams the requested values
+   newest-first (read BEFORE it applies the pushed ones), the initiator applies them in chunks of [n]. *)
+Definition sync_exchange_stream (n : nat) (a b : state) : state * state :=
+  let push := values_of (st_store a) (push_ids (st_index a) (st_index b)) in
+  let pull := values_of (st_store b) (newest_first (st_index b) (push_ids (st_index b) (st_index a))) in
+  (stream_apply n a [] pull, fst (set_raw FNone b push)).
+
 (* ------------------------------------------------------------------------------------------------ *)
 (* Operation histories on a world of two stores                                                      *)
 
 Inductive op :=
 | OpRaw (who : bool) (f : fault) (batch : list value)     (* pushed batch / pulled stream chunk: SetRaw *)
 | OpLocal (who : bool) (f : fault) (v : value)            (* local Set *)
-| OpSync (who : bool).                                    (* [who] initiates one exchange with the other *)
+| OpSync (who : bool)                                     (* [who] initiates one exchange with the other *)
+| OpSyncStream (who : bool) (n : nat).                    (* the same through the real service: streamed, chunks of n *)
 
 Definition world := (state * state)%type.
 Definition wget (w : world) (who : bool) : state := if who then snd w else fst w.
@@ -221,6 +263,9 @@ Definition step (w : world) (o : op) : world * bool :=
   | OpLocal who f v => let '(s, ok) := local_set f (wget w who) v in (wset w who s, ok)
   | OpSync who =>
       let '(a, b) := sync_exchange (wget w who) (wget w (negb who)) in
+      (wset (wset w who a) (negb who) b, true)
+  | OpSyncStream who n =>
+      let '(a, b) := sync_exchange_stream n (wget w who) (wget w (negb who)) in
       (wset (wset w who a) (negb who) b, true)
   end.
 
